@@ -26,7 +26,7 @@ DEFAULT_FEATURES = {
     "refined": 4, "cls": 6, "list": 2, "annlist": 3, "tuple": 0, "union": 1, "dependent": 0, "flaky": 0,
     "weights": 0, "nested": 1, "standalone": 1, "unreachable": 1, "plain": 1, "infeasible": 0,
     "max_abstract": 3, "max_classes": 9, "max_fields": 3, "future_annotations": 0, "concrete_start": 0,
-    "base_in_list": 1, "finite": 0, "nested_generic": 0, "nested_list": 0, "deep_chain": 0, "self_ref": 0, "multi_dependent": 0, "abstract_weights": 0, "nested_start": 0, "hollow": 0, "barren": 0, "falsy": 0, "wide_weights": 0,
+    "base_in_list": 1, "finite": 0, "nested_generic": 0, "nested_list": 0, "deep_chain": 0, "self_ref": 0, "multi_dependent": 0, "abstract_weights": 0, "nested_start": 0, "hollow": 0, "barren": 0, "falsy": 0, "wide_weights": 0, "inherited_ctor": 0,
 }
 
 
@@ -288,6 +288,13 @@ def gen_spec(H: Chooser, feat=None) -> dict:
         classes.append({"name": "U1", "kind": "data", "parent": "U0", "weight": None, "fields": [["f0", ["int"]]]})
         if H.draw(2):
             classes.append({"name": "U2", "kind": "data", "parent": None, "weight": None, "fields": [["f0", ["cls", "A0"]]]})
+    if feat.get("inherited_ctor") and H.draw(3) == 0:
+        # an abstract dataclass that declares the fields, and concrete productions that only inherit its constructor
+        flds = gen_fields(list(abstracts)) or [["f0", ["bool"]]]
+        flds = [[fn, ft] for fn, ft in flds if not fn.startswith(("k", "d"))] or [["f0", ["bool"]]]  # no dependent refinements here
+        classes.append({"name": "AI", "kind": "deco", "parent": H.pick(abstracts), "weight": None, "fields": [], "declares": flds, "weight_first": False})
+        for j in range(1 + H.draw(2)):
+            classes.append({"name": f"I{j}", "kind": "data", "parent": "AI", "weight": weight(), "fields": [list(x) for x in flds], "inherit": True})
     if feat.get("hollow") and H.draw(3) == 0:
         # an abstract type without any production, mentioned by one production (which therefore has no finite derivation)
         classes.append({"name": "H0", "kind": "abc", "parent": None, "weight": None, "fields": []})
@@ -458,7 +465,15 @@ def render_source(spec) -> str:
                 lines += decos
             else:
                 lines.append("@abstract")
-            lines += [f"class {c['name']}{bases}:", "    pass"]
+            if c.get("declares"):
+                lines.append("@dataclass")
+                later = {c["name"]} | {o["name"] for o in order[order.index(c) + 1:]}
+                lines.append(f"class {c['name']}{bases}:")
+                for fn, ft in c["declares"]:
+                    tt = render_type(ft, deps)
+                    lines.append(f"    {fn}: {repr(tt) if _mentions(ft, later) else tt}")
+            else:
+                lines += [f"class {c['name']}{bases}:", "    pass"]
         else:
             if c.get("weight") is not None:
                 lines.append(f"@weight({c['weight']!r})")
@@ -466,7 +481,9 @@ def render_source(spec) -> str:
             # a field type that mentions the class itself (or a class defined later) is written as a string annotation
             later = {c["name"]} | {o["name"] for o in order[order.index(c) + 1:]}
             ftxt = [(fn, repr(tt) if _mentions(ft, later) else tt) for (fn, tt), (_, ft) in zip(ftxt, c["fields"])]
-            if c["kind"] == "data":
+            if c.get("inherit"):
+                lines += [f"class {c['name']}{bases}:", "    pass"]  # the typed constructor is the parent's
+            elif c["kind"] == "data":
                 lines += ["@dataclass", f"class {c['name']}{bases}:"]
                 lines += [f"    {fn}: {tt}" for fn, tt in ftxt] or ["    pass"]
             else:
